@@ -75,6 +75,18 @@ def build(mode='quick'):
         rc, out = sh([sys.executable, os.path.join(ROOT, 'tools', 'translate.py'), REPO, os.path.join(COQ, 'Gen')], timeout=120)
         if rc != 0:
             st['translator'] = {'ok': False, 'message': out.strip()[-2000:]}
+        # 1b. function translator: executes the selected functions of the repository on symbolic arguments and prints their decision trees
+        # (Gen/Fn_*.v).  A function it refuses becomes an ill-typed definition there, so only the theorems depending on it fail.
+        env = dict(os.environ, PYTHONPATH=REPO, PYTHONHASHSEED='0', PYTHONDONTWRITEBYTECODE='1')
+        try:
+            p = subprocess.run(['/venv/bin/python', os.path.join(ROOT, 'tools', 'symtrans.py'), REPO, os.path.join(COQ, 'Gen')], env=env,
+                               stdout=subprocess.PIPE, stderr=subprocess.STDOUT, timeout=600, text=True, errors='replace')
+            rc, out = p.returncode, p.stdout
+        except subprocess.TimeoutExpired:
+            rc, out = 124, 'symtrans.py: timeout'
+        st['symtrans'] = {'ok': rc == 0, 'report': [l for l in out.split('\n') if l.startswith('symtrans:')], 'message': '' if rc == 0 else out.strip()[-1500:]}
+        if rc != 0 and st['translator']['ok']:
+            st['translator'] = {'ok': False, 'message': 'symtrans.py failed: ' + out.strip()[-1500:]}
         # 2. coq
         files = vfiles()
         proj = '-Q . UDS\n-arg -w -arg -notation-overridden,-deprecated-hint-without-locality,-deprecated-instance-without-locality\n' + '\n'.join(files) + '\n'
